@@ -48,6 +48,8 @@ pub struct DlCfg {
     pub tkl: usize,
     pub strategy: Strategy,
     pub typ: u8,
+    /// stop (abandon the transfer) after this many blocks were received, leaving it cached
+    pub abandon_after: Option<usize>,
 }
 
 #[derive(Debug, Default)]
@@ -238,6 +240,9 @@ pub fn download(server: &mut Server, cfg: &DlCfg, ids: &mut Ids) -> (Vec<Finding
                     break;
                 }
                 st.fragmented = true;
+                if cfg.abandon_after == Some(blocks_done) {
+                    return (out, st);
+                }
                 // next request
                 let mut next_szx = szx;
                 if let Strategy::Reduce { after, new_szx, .. } = &cfg.strategy {
@@ -593,7 +598,7 @@ pub fn run_c08(ctx: &mut Ctx) {
                 };
                 // budget that yields exactly `size`: overhead + 12 + size + d, d < size
                 let m = overhead + 12 + size + (len * 7 + strat) % size;
-                let cfg = DlCfg { ep: 1, path: vec!["res".into(), format!("{}", len)], body: body_bytes(len as u64, len), reply_opts, tkl, strategy, typ: (len % 2) as u8 };
+                let cfg = DlCfg { ep: 1, path: vec!["res".into(), format!("{}", len)], body: body_bytes(len as u64, len), reply_opts, tkl, strategy, typ: (len % 2) as u8, abandon_after: None };
                 dl_one(rep, m, &cfg, &mut ids, Scope::Transfer);
             }
         }
@@ -626,9 +631,52 @@ pub fn run_c08(ctx: &mut Ctx) {
             3 => Strategy::Reduce { early: None, after: r.urange(1, 3), new_szx: r.below(4) as u8 },
             _ => Strategy::Reduce { early: Some(r.urange(2, 6) as u8), after: r.urange(1, 4), new_szx: r.below(3) as u8 },
         };
-        let cfg = DlCfg { ep: r.below(4) as u32, path: vec!["d".into(), format!("{}", r.below(5))], body: body_bytes(r.next_u64(), len), reply_opts, tkl, strategy, typ: r.below(2) as u8 };
+        let cfg = DlCfg { ep: r.below(4) as u32, path: vec!["d".into(), format!("{}", r.below(5))], body: body_bytes(r.next_u64(), len), reply_opts, tkl, strategy, typ: r.below(2) as u8, abandon_after: None };
         dl_one(rep, m, &cfg, &mut ids, Scope::Transfer);
     }
+    // a transfer abandoned midway, then a fresh one for the same key that starts WITHOUT a Block2
+    // option (the resource changed in between): the new transfer must see only the new body
+    let nrestart = (budget / 3).max(if level == 0 { 2 } else { 30 });
+    for i in 0..nrestart {
+        rep.eval();
+        let tkl = r.usize_below(9);
+        let opts_a = gen_reply_opts(&mut r);
+        let opts_b = if r.bool() { opts_a.clone() } else { gen_reply_opts(&mut r) };
+        let overhead = reply_overhead(tkl, &opts_a).max(reply_overhead(tkl, &opts_b));
+        let m = r.urange(overhead + 28, (overhead + 400).min(1280));
+        let maxblock = m - overhead - 12;
+        let len_a = r.urange(2 * maxblock + 1, 6 * maxblock + 40).min(if level == 0 { 500 } else { 20000 });
+        let len_b = match r.below(3) {
+            0 => r.urange(2 * maxblock + 1, 5 * maxblock + 40),
+            1 => len_a,
+            _ => r.urange(maxblock + 1, 8 * maxblock),
+        };
+        let path = vec!["again".to_string(), format!("{}", i % 3)];
+        let a = DlCfg { ep: 5, path: path.clone(), body: body_bytes(r.next_u64(), len_a), reply_opts: opts_a, tkl, strategy: if r.bool() { Strategy::Follow } else { Strategy::Early(r.below(7) as u8) }, typ: 0, abandon_after: Some(r.urange(1, 2)) };
+        let b = DlCfg { ep: 5, path, body: body_bytes(r.next_u64(), len_b), reply_opts: opts_b, tkl, strategy: Strategy::Follow, typ: 0, abandon_after: None };
+        let witness = format!("restart: budget {} first transfer body {}B abandoned after {:?} blocks (strategy {:?}), then a new transfer without Block2, body {}B, reply options {:?} -> {:?}", m, len_a, a.abandon_after, a.strategy, len_b, a.reply_opts.iter().map(|o| o.0).collect::<Vec<_>>(), b.reply_opts.iter().map(|o| o.0).collect::<Vec<_>>());
+        set_case_str(&witness);
+        let mut server = Server::new(m, LONG);
+        let (fa, sa) = download(&mut server, &a, &mut ids);
+        if !fa.is_empty() || !sa.fragmented {
+            // the first transfer itself is judged by the other workloads; only count usable setups
+            rep.count("restart_setups_skipped");
+            continue;
+        }
+        let (fb, sb) = download(&mut server, &b, &mut ids);
+        let fb: Vec<Finding> = fb.into_iter().map(|mut x| {
+            x.sig = format!("after-abandoned-transfer:{}", x.sig);
+            x
+        }).collect();
+        if !report_findings(rep, fb, Scope::Transfer, &witness) {
+            rep.count("restarts_after_abandoned_transfer_held");
+        }
+        if sb.fragmented {
+            rep.count("restarts_fragmented");
+        }
+        rep.distinct(mix(&[0xAB, (len_a % 7) as u64, (len_b % 7) as u64, (sa.blocks) as u64, m as u64 % 5]));
+    }
+    rep.floor("restarts_fragmented", 1);
     rep.floor("transfers_fragmented", (rep.evaluations / 4).max(1));
     rep.floor("strategy_follow", 1);
     rep.floor("strategy_early", 1);
@@ -861,7 +909,7 @@ pub fn run_c10(ctx: &mut Ctx) {
                         Some(s) => Strategy::Early(s),
                     };
                     let len = [0usize, 10, 100, 700, 2100][(idx as usize + optsel) % 5];
-                    let cfg = DlCfg { ep: 1, path: vec!["c10".into()], body: body_bytes(idx, len), reply_opts: reply_opts.clone(), tkl, strategy, typ: 0 };
+                    let cfg = DlCfg { ep: 1, path: vec!["c10".into()], body: body_bytes(idx, len), reply_opts: reply_opts.clone(), tkl, strategy, typ: 0, abandon_after: None };
                     dl_one(rep, m, &cfg, &mut ids, Scope::Budget);
                     rep.bucket(&format!("budget_minus_overhead_minus_12_near_2^{}", (m - overhead - 12).max(1).ilog2()));
                 }
@@ -886,7 +934,7 @@ pub fn run_c10(ctx: &mut Ctx) {
         };
         let len = if level == 0 { r.usize_below(400) } else { r.usize_below(4000) };
         let plen = r.usize_below(200);
-        let cfg = DlCfg { ep: 2, path: vec![String::from_utf8(vec![b'x'; plen]).unwrap()], body: body_bytes(r.next_u64(), len), reply_opts, tkl, strategy, typ: r.below(2) as u8 };
+        let cfg = DlCfg { ep: 2, path: vec![String::from_utf8(vec![b'x'; plen]).unwrap()], body: body_bytes(r.next_u64(), len), reply_opts, tkl, strategy, typ: r.below(2) as u8, abandon_after: None };
         dl_one(rep, m, &cfg, &mut ids, Scope::Budget);
     }
     // uploads: the request's overhead is what matters
